@@ -46,6 +46,7 @@ class Run:
         self.exc = None
         self.kills = []
         self.end = None
+        self.model_actions = (0, 0)
 
     def act(self, label):
         for k, v in self.actions.items():
@@ -85,6 +86,9 @@ def parse_runs(out, specs):
         elif line.startswith("ACT"):
             t = line.split()
             cur.actions[int(t[1])] = t[2]
+        elif line.startswith("MODELACT"):
+            t = line.split()
+            cur.model_actions = (int(t[1]), int(t[2]))
         elif line.startswith("LIVE"):
             t = line.split()
             cur.live.append((int(t[1]), int(t[2]), int(t[3]), int(t[4]), fh(t[5]), int(t[6])))
@@ -256,6 +260,20 @@ def gen_specs_extra(rng, tier):
             specs.append(dict(problem="P4", cutmode=0, ecut=1000.0, seed=rng.randrange(1, 10 ** 6),
                               slots=rng.choice([2, 4, 16]), capacity=4096, stack=1.0, kill_at=-1, max_iters=400,
                               track_order=order, msc=True, prims=prims))
+        # ---- P5: positrons (and electrons) slowing down to rest with the real annihilation
+        # process; identical parallel positrons stop in the same iteration, so with a starved
+        # secondary stack some annihilations fail and the stopped, still alive positron has to
+        # retry at rest in a zero-length step
+        for stack, slots, order in ((3.0, 4, 0), (0.5, 4, 0), (0.25, 8, 1), (1.0, 2, rng.choice([3, 5, 6]))):
+            n = 2 * slots if slots <= 4 else slots
+            E = rng.choice([1.0, 0.5, 2.0])
+            dz = rng.choice([1.0, -1.0])
+            prims = [(1, E, [-3.0 + 6.0 * i / n, rng.uniform(-2, 2), 0.0], [0.0, 0.0, dz], 0) for i in range(n)]
+            prims += [(0, 10 ** rng.uniform(-0.5, 0.3), [rng.uniform(-3, 3) for _ in range(3)], unit(rng), 0)
+                      for _ in range(2)]
+            specs.append(dict(problem="P5", cutmode=0, ecut=1000.0, seed=rng.randrange(1, 10 ** 6),
+                              slots=slots, capacity=4096, stack=stack, kill_at=-1, max_iters=600,
+                              track_order=order, prims=prims))
     return specs
 
 
@@ -425,6 +443,13 @@ def stream_check(run):
     tcut = run.act("tracking-cut")
     fail = run.act("physics-failure")
     tr = tracks_of(run)
+    rej = run.act("physics-integral-rejected")
+    m0, m1 = run.model_actions
+
+    def at_rest_action(a):
+        """post-step actions a zero-length step may end with: a discrete interaction model,
+        or the outcome of an attempted one (allocation failure / integral rejection)"""
+        return (m0 <= a < m1) or a == fail or a == rej
 
     def add(kind, what, recs, sig=None):
         viol.append((kind, what, dict(records=[rec_dict(run, r) for r in recs]), sig))
@@ -433,7 +458,9 @@ def stream_check(run):
         for k, r in enumerate(rs):
             st["records"] += 1
             name = "event %d track %d step %d" % (key[0], key[1], r.nsteps)
-            errored = (r.prestatus == 3) or (r.action == tcut and r.pre.vol < 0)
+            # errored before the step (failed initialisation / kill_active) or within it
+            # (geometry failure -> apply_errored): the step ends in the tracking cut
+            errored = (r.prestatus == 3) or (r.action == tcut)
             # --- within one record
             if r.post.t < r.pre.t:
                 add("time-decreased", "%s: time %r -> %r" % (name, r.pre.t, r.post.t), [r])
@@ -449,6 +476,14 @@ def stream_check(run):
                 st["zero_steps"] += 1
                 if r.pre.E == 0:
                     st["zero_steps_stopped"] += 1
+                    # a stopped particle's zero-length step exists only to interact at rest
+                    if m1 > m0 and not at_rest_action(r.action):
+                        add("zero-step-not-at-rest-interaction",
+                            "%s: zero-length step of a stopped particle ends with action %s, not with a discrete (at-rest) interaction"
+                            % (name, run.actions.get(r.action, r.action)), [r])
+                    if k > 0 and rs[k - 1].step == 0 and not (rs[k - 1].action == fail or rs[k - 1].action == rej):
+                        add("consecutive-zero-steps", "%s: second zero-length step in a row (previous ended with %s)"
+                            % (name, run.actions.get(rs[k - 1].action, rs[k - 1].action)), [rs[k - 1], r])
                 else:
                     sig = F5_SIGNATURE if r.action == fail else None
                     if sig and d > 0:
@@ -477,7 +512,7 @@ def stream_check(run):
                 st["boundary_steps"] += 1
             if r.pre.vol != r.post.vol:
                 st["volume_changes"] += 1
-                if r.action != bnd:
+                if r.action != bnd and not errored:
                     add("volume-changed-without-boundary", "%s: volume %d -> %d with action %s"
                         % (name, r.pre.vol, r.post.vol, run.actions.get(r.action)), [r])
             # reported volume contains reported position (fresh initialisation)
@@ -506,4 +541,16 @@ def stream_check(run):
                     add("iteration-gap", "%s: recorded in iteration %d then %d" % (name, r.it, n.it), [r, n])
                 if not nerr and n.nsteps != r.nsteps + 1:
                     add("step-count", "%s: step counter %d then %d" % (name, r.nsteps, n.nsteps), [r, n])
+    # the event must drain: nothing may still be alive or queued when the loop stopped
+    # (iteration budget max_iters; kill_active runs end by construction)
+    if run.exc is None and run.end is not None and (run.end[1] > 0 or run.end[2] > 0):
+        stuck = [dict(slot=sl, event=ev, track=tk, particle=run.parts.get(pid, ("?",))[0], E=E, status=stt)
+                 for (sl, ev, tk, pid, E, stt) in run.live][:8]
+        lastrecs = []
+        for (sl, ev, tk, pid, E, stt) in run.live[:2]:
+            lastrecs += tr.get((ev, tk), [])[-3:]
+        viol.append(("event-did-not-drain",
+                     "after %d iterations %d tracks are still alive and %d queued (stuck: %s)"
+                     % (run.end[0], run.end[1], run.end[2], ", ".join("ev %d trk %d %s E=%r" % (x["event"], x["track"], x["particle"], x["E"]) for x in stuck[:4])),
+                     dict(live=stuck, records=[rec_dict(run, r) for r in lastrecs]), None))
     return viol, st
